@@ -18,6 +18,8 @@ class C11(LoopCheck):
         kept = []
         for c in out:
             c["routes"] = ["bytes", "live_dict", "dict_twice"] if tier == "quick" else ["bytes", "dict", "dict_twice", "live_dict", "file"]
+            if c["schedule"] == "fixed2" and not c["n_final"]:
+                c["routes"] = c["routes"] + ["live_after_fault"]
             if c["schedule"].startswith("adaptive") and tier != "quick":
                 # N = 3 adaptive runs are expensive: bytes / live-dict routes only,
                 # without the final-enlargement variant
